@@ -427,7 +427,10 @@ func (v *visitor) checkFunc(fn reflect.Type, method bool, node ast.Node, name st
 			in = fn.In(i + offset)
 		}
 
-		if isIntegerOrArithmeticOperation(arg) {
+		// Integer literals (and arithmetic on them) adapt to a numeric parameter
+		// like Go's untyped constants; any other argument keeps its own type
+		// and must be assignable.
+		if isIntegerOrArithmeticOperation(arg) && isInteger(t) && !isInterface(t) && isNumber(in) && !isInterface(in) {
 			t = in
 			setTypeForIntegers(arg, t)
 		}
